@@ -727,3 +727,4 @@ def finish(tier, rep: Report):
     if rep.counters.get("filtered_not_connected_manifold"):
         fails.append("a task contained a mesh that is not a connected manifold (tasks() filters them)")
     return fails
+
